@@ -250,6 +250,38 @@ def run_normalisation(d, spec, left, interp, cap=400):
     return prev, kinds, False
 
 
+def library_functor_agrees(d, nf, spec):
+    """ "Under every rigid functor into tensors": the library's own functor,
+    with every basic type sent to two axes (a palindromic dimension, so that
+    cups and caps of the image are defined), gives d and its normal form the
+    same tensor. The step-by-step check above uses the harness evaluator with
+    one axis per wire. """
+    import numpy as np
+    from discopy import rigid, tensor
+    if max(len(sc) for sc in specs.scans(spec)) > 4 or len(d) > 9:
+        return
+    names = sorted({n for sc in specs.scans(spec) for n, _ in sc} | {
+        b[k][0] for b, _ in spec["layers"] for k in ("l", "r") if k in b})
+    ob = {rigid.Ty(n): tensor.Dim(2, 2) for n in names}
+    ar = {}
+    for bx in d.boxes:
+        if is_cap(bx) or is_cup(bx) or type(bx).__name__ == "Swap":
+            continue
+        g = bx.dagger() if bx.is_dagger else bx
+        if g in ar:
+            continue
+        size = 4 ** (len(g.dom) + len(g.cod))
+        seed = sum(map(ord, str(g.name))) + 5 * len(g.dom) + len(g.cod)
+        ar[g] = [((seed + 7 * i) % 5) - 2 + 1j * (((seed + 3 * i) % 3) - 1)
+                 for i in range(size)]
+    F = tensor.Functor(ob, ar)
+    a, b = F(d), F(nf)
+    require(a.dom == b.dom and a.cod == b.cod and np.allclose(
+        np.asarray(a.array, dtype=complex), np.asarray(b.array, dtype=complex)),
+        "C07:library-functor-distinguishes-normal-form",
+        lambda: "{} and its normal form {} under n -> Dim(2, 2)".format(d, nf))
+
+
 def check_diagram(spec, left, interp_spec, labels):
     d = specs.build(spec)
     interp = common.arrays_of(interp_spec)
@@ -271,6 +303,7 @@ def check_diagram(spec, left, interp_spec, labels):
     left_over = removable_snakes(nf)
     require(not left_over, "C07:snake-left-in-normal-form",
             lambda: "{} -> {} still has {}".format(d, nf, left_over))
+    library_functor_agrees(d, nf, spec)
     # the other flag on the same diagram: the answer is that of this call
     try:
         other_last, _, other_rep = run_normalisation(d, spec, not left, interp)
